@@ -106,7 +106,7 @@ var payloadOf = map[event.EventTag]interface{}{
 // fields the generator always sets when the type has them (the ones the merge functions and handlers read)
 var mustFields = []string{"Amount", "Reward", "Total", "DelegateRewards", "DelegatePenalties", "OpenChallenges", "TotalChallenges",
 	"CompletedDelta", "PassedDelta", "OpenDelta", "SavedData", "ReadData", "CollectedReward", "PayedFees", "BlobberID", "Burner",
-	"Signers", "MintNonce", "UserID", "EthereumAddress", "Hash", "Nonce"}
+	"Signers", "MintNonce", "UserID", "EthereumAddress", "Hash", "Nonce", "ID", "AllocationID", "PoolID", "Balance", "TotalStake", "Size"}
 
 type fld struct {
 	name string
@@ -660,6 +660,14 @@ func impl(ops []string) []string {
 				parts = append(parts, ";")
 				parts = append(parts, others...)
 				outs[i] = strings.Join(parts, " ")
+			case len(w) == 1 && w[0] == "rows":
+				in := append([]event.Event(nil), evs...)
+				res, err := event.VerifMergeEvents(round, hash, in)
+				if err != nil {
+					outs[i] = "nomerge"
+					return
+				}
+				outs[i] = showRows(res, names)
 			case len(w) == 2 && w[0] == "process":
 				if w[1] != "fail" && w[1] != "ok" {
 					outs[i] = "bad-op"
@@ -803,6 +811,114 @@ func handle(merged []event.Event, ems []emitted) string {
 		}
 	}
 	return fmt.Sprintf("bt=%s burn=%s users=%s mint=%s dbburn=%s dbmint=%s", bt, burn, users, mint, showPairs(db), showPairs(dm))
+}
+
+// ---- table stand-ins: the REAL merged events applied in their REAL order ---------------------------------------------
+
+type tblSpec struct {
+	id       int
+	name     string
+	ins      event.EventTag
+	upds     []event.EventTag
+	key, val string
+	addTag   event.EventTag
+	addField string
+}
+
+// one value column per table and the one update tag that writes that column (two update tags of one table write
+// different columns; their relative order is no concern of the property)
+var tblSpecs = []tblSpec{
+	{id: 1, name: "read_pools", ins: event.TagInsertReadpool, upds: []event.EventTag{event.TagUpdateReadpool}, key: "UserID", val: "Balance"},
+	{id: 2, name: "blobbers", ins: event.TagAddBlobber, upds: []event.EventTag{event.TagUpdateBlobberTotalStake}, key: "ID", val: "TotalStake"},
+	{id: 3, name: "authorizers", ins: event.TagAddAuthorizer, upds: []event.EventTag{event.TagUpdateAuthorizerTotalStake}, key: "ID", val: "TotalStake"},
+	{id: 4, name: "miners", ins: event.TagAddMiner, upds: []event.EventTag{event.TagUpdateMinerTotalStake}, key: "ID", val: "TotalStake"},
+	{id: 5, name: "sharders", ins: event.TagAddSharder, upds: []event.EventTag{event.TagUpdateSharderTotalStake}, key: "ID", val: "TotalStake"},
+	{id: 6, name: "validators", ins: event.TagAddOrOverwiteValidator, upds: []event.EventTag{event.TagUpdateValidatorStakeTotal}, key: "ID", val: "TotalStake"},
+	{id: 7, name: "allocations", ins: event.TagAddAllocation, upds: []event.EventTag{event.TagUpdateAllocation}, key: "AllocationID", val: "Size"},
+	{id: 10, name: "delegate_pools", ins: event.TagAddDelegatePool, key: "PoolID", val: "Reward", addTag: event.TagStakePoolReward, addField: "DelegateRewards"},
+}
+
+type rowOp struct {
+	kind byte // i u a
+	k    string
+	v    uint64
+}
+
+// rowOpsOf: the row operations one (tag, payload) contributes to a table
+func rowOpsOf(sp tblSpec, tag event.EventTag, item string) []rowOp {
+	num := func(f string) uint64 {
+		s, _ := fieldOf(item, f)
+		u, _ := strconv.ParseUint(s, 10, 64)
+		return u
+	}
+	k, _ := fieldOf(item, sp.key)
+	switch {
+	case tag == sp.ins:
+		return []rowOp{{'i', k, num(sp.val)}}
+	case sp.addField != "" && tag == sp.addTag:
+		var out []rowOp
+		if m, ok := fieldOf(item, sp.addField); ok && m != "" {
+			for _, e := range strings.Split(m, ",") {
+				p := strings.SplitN(e, ":", 2)
+				u, _ := strconv.ParseUint(p[1], 10, 64)
+				out = append(out, rowOp{'a', p[0], u})
+			}
+		}
+		return out
+	}
+	for _, u := range sp.upds {
+		if u == tag {
+			return []rowOp{{'u', k, num(sp.val)}}
+		}
+	}
+	return nil
+}
+
+// applyRowOps: INSERT creates or overwrites the row, UPDATE / additive UPDATE of an absent row matches nothing
+func applyRowOps(ops []rowOp) map[string]uint64 {
+	t := map[string]uint64{}
+	for _, o := range ops {
+		switch o.kind {
+		case 'i':
+			t[o.k] = o.v
+		case 'u':
+			if _, ok := t[o.k]; ok {
+				t[o.k] = o.v
+			}
+		case 'a':
+			if x, ok := t[o.k]; ok {
+				t[o.k] = x + o.v
+			}
+		}
+	}
+	return t
+}
+
+func showTable(id int, t map[string]uint64) string {
+	var l []string
+	for k, v := range t {
+		l = append(l, fmt.Sprintf("%s:%d", k, v))
+	}
+	return fmt.Sprintf("%d:%s", id, showPairs(l))
+}
+
+func showRows(res []event.Event, names map[event.EventTag][]string) string {
+	parts := []string{"rows"}
+	for _, sp := range tblSpecs {
+		var ops []rowOp
+		for _, e := range res { // the order mergeEvents returns = the order WorkEvents applies
+			if e.TxHash != "" {
+				continue
+			}
+			for _, it := range itemsOfData(e.Data, names[e.Tag]) {
+				ops = append(ops, rowOpsOf(sp, e.Tag, it)...)
+			}
+		}
+		if t := applyRowOps(ops); len(t) > 0 {
+			parts = append(parts, showTable(sp.id, t))
+		}
+	}
+	return strings.Join(parts, " ")
 }
 
 func main() {
